@@ -4,10 +4,14 @@
 //!   verif worker <engine>                 (internal) shard process
 //!   verif replay <file>                   re-execute a recorded violation / known finding
 
+mod e1_checks;
 mod e3_codec;
 mod e3_config;
 mod e3_window;
+mod modea;
+mod monitors;
 mod refcodec;
+mod sim;
 mod util;
 
 use serde_json::{json, Map, Value};
@@ -38,7 +42,19 @@ static START: std::sync::OnceLock<Instant> = std::sync::OnceLock::new();
 
 pub fn pool_opts(tier: Tier) -> PoolOpts {
     let start = *START.get_or_init(Instant::now);
-    PoolOpts { nproc: nproc(), deadline: start + wall_cap(tier), cell_limit: wall_cap(tier) }
+    PoolOpts { nproc: nproc(), deadline: start + wall_cap(tier), cell_limit: wall_cap(tier), exe: None }
+}
+
+pub const OVF_EXE: &str = "/verif/harness/target/ovf/verif";
+
+/// Runs cells through the overflow-checked build of the harness (subject arithmetic panics on overflow as in a debug build).
+pub fn run_cells_ovf(engine: &str, cells: Vec<Value>, tier: Tier) -> Vec<Option<Value>> {
+    if !std::path::Path::new(OVF_EXE).exists() {
+        return cells.iter().map(|_| Some(json!({"machinery_error": "overflow-checked harness binary missing (./check build thorough)"}))).collect();
+    }
+    let mut o = pool_opts(tier);
+    o.exe = Some(OVF_EXE.to_string());
+    run_cells(engine, cells, &o)
 }
 
 pub struct Outcome {
@@ -82,6 +98,7 @@ impl Outcome {
 
 fn worker_dispatch(engine: &str) -> Box<dyn Fn(&Value) -> Value> {
     match engine {
+        "modea" => Box::new(e1_checks::modea_cell),
         "c10" => Box::new(e3_codec::c10_cell),
         "c11" => Box::new(e3_codec::c11_cell),
         "c17" => Box::new(e3_config::cell),
@@ -92,6 +109,11 @@ fn worker_dispatch(engine: &str) -> Box<dyn Fn(&Value) -> Value> {
 
 fn run_check(id: &str, tier: Tier) -> Option<Outcome> {
     Some(match id {
+        "C01" => e1_checks::c01_check(tier),
+        "C02" => e1_checks::c02_check(tier),
+        "C07" => e1_checks::c07_check(tier),
+        "C08" => e1_checks::c08_check(tier),
+        "C16" => e1_checks::c16_check(tier),
         "C10" => e3_codec::c10_check(tier),
         "C11" => e3_codec::c11_check(tier),
         "C17" => e3_config::check(tier),
@@ -131,6 +153,7 @@ fn replay(path: &str) -> i32 {
     let r = &v["replay"];
     println!("property={} clause={} what={}", v["property"], v["clause"], v["what"]);
     let text = match r["engine"].as_str().unwrap_or("") {
+        "modea" => e1_checks::replay(r),
         "e3_codec" => e3_codec::replay(r),
         "e3_config" => e3_config::replay(r),
         "e3_window" => e3_window::replay(r),
@@ -197,7 +220,8 @@ fn check_main(id: &str, tier: Tier) -> i32 {
     cov.insert("traces_validated_against_impl".into(), json!(c.executions));
     cov.insert("evaluations".into(), json!(c.executions.max(1)));
     cov.insert("distinct_nontrivial".into(), json!(c.nontrivial));
-    cov.insert("distinct_outcomes".into(), json!(c.trace_hashes.len()));
+    let distinct = (c.trace_hashes.len() as u64).max(c.extra.get("distinct_traces").and_then(|x| x.as_u64()).unwrap_or(0));
+    cov.insert("distinct_outcomes".into(), json!(distinct));
     cov.insert("rule".into(), json!(out.rule));
     cov.insert("samples".into(), json!(if c.samples.is_empty() { vec![json!("(none recorded)")] } else { c.samples.clone() }));
     cov.insert("exhaustive".into(), json!(complete));
@@ -226,7 +250,7 @@ fn check_main(id: &str, tier: Tier) -> i32 {
     }
     println!(
         "{id} {}: executions={} states={} transitions={} distinct_outcomes={} cells={}/{} violations={} known={} wall={:.1}s{}",
-        tier.name(), c.executions, c.states, c.transitions, c.trace_hashes.len(), out.cells_done, out.cells_total, new_v.len(), known_hits.len(), t0.elapsed().as_secs_f64(),
+        tier.name(), c.executions, c.states, c.transitions, distinct, out.cells_done, out.cells_total, new_v.len(), known_hits.len(), t0.elapsed().as_secs_f64(),
         if complete { "" } else { " (NOT exhaustive: cap or error)" }
     );
     if !new_v.is_empty() {
